@@ -167,21 +167,24 @@ theorem unhandled_is_uncaught (rs : List Retrier) (cs : List Catcher) (e : Str) 
   · rfl
   · simp [h1, h2]
 
-/-- in the interpreter: an uncaught error fails the scope with exactly that error name -/
+/-- in the interpreter: an uncaught error fails the scope with exactly that error name (a Parallel / Map state is
+filed as failed — unless the error is the execution's time-out, for which the engine files nothing) -/
 theorem unhandled_fails_with_E (env : Env) (fuel : Nat) (states : Json) (name : Str) (state data ctx : Json)
     (retries : Nat) (e msg : Str) (st : St)
     (h : decideError ((listOf (fld state "Retry")).map retrierOf) ((listOf (fld state "Catch")).map catcherOf) e retries = .uncaught) :
     handleErr env (fuel + 1) states name state data ctx retries e msg st =
-      (.failed e (causeOf msg) false, (st.fanFailedIf state).failTok) := by
+      (.failed e (causeOf msg) false, (if e = execTimeoutName then st else st.fanFailedIf state).failTok) := by
   simp [handleErr, h]
 
-/-- a retried state is re-run on its *original raw input* with the incremented retry count -/
+/-- a retried state is re-run on its *original raw input* with the incremented retry count (`hD`: the re-run starts
+before the execution's time limit, if there is one — `Env.retryCut`; without a limit: `Env.retryCut_no_deadline`) -/
 theorem retry_reruns_same_input (env : Env) (fuel : Nat) (states : Json) (name : Str) (state data ctx : Json)
     (retries : Nat) (e msg : Str) (st : St) (d : Rat) (k : Nat)
-    (h : decideError ((listOf (fld state "Retry")).map retrierOf) ((listOf (fld state "Catch")).map catcherOf) e retries = .retry d k) :
+    (h : decideError ((listOf (fld state "Retry")).map retrierOf) ((listOf (fld state "Catch")).map catcherOf) e retries = .retry d k)
+    (hD : env.retryCut (st.retryAfter name d).clock = none) :
     handleErr env (fuel + 1) states name state data ctx retries e msg st =
       runFrom env fuel states name data ctx k (st.retryAfter name d) := by
-  simp [handleErr, h]
+  simp only [handleErr, h, hD]
 
 /-- a caught error transfers to the catcher's Next with the Error Output {Error, Cause} placed by the
 catcher's ResultPath into the state's original raw input, and the successor starts with retry count 0 -/
@@ -249,12 +252,13 @@ theorem terminal_output_over_limit_retried_on_raw_input (env : Env) (fuel : Nat)
     (state raw out ctx : Json) (retries : Nat) (st : St) (d : Rat) (k : Nat)
     (hE : isTrue (fld state "End") = true) (hL : (render out).length > env.maxData)
     (h : decideError ((listOf (fld state "Retry")).map retrierOf) ((listOf (fld state "Catch")).map catcherOf)
-      (S "States.DataLimitExceeded") retries = .retry d k) :
+      (S "States.DataLimitExceeded") retries = .retry d k)
+    (hD : env.retryCut (st.retryAfter name d).clock = none) :
     leave env (fuel + 2) states name state raw out ctx retries st =
       runFrom env fuel states name raw ctx k (st.retryAfter name d) ∧
       k = retries + 1 := by
   rw [terminal_output_over_limit_handled_on_raw_input env (fuel + 1) states name state raw out ctx retries st hE hL]
-  exact ⟨retry_reruns_same_input env fuel states name state raw ctx retries _ _ st d k h,
+  exact ⟨retry_reruns_same_input env fuel states name state raw ctx retries _ _ st d k h hD,
     (rerun_count_bounded _ _ _ _ _ _ h).1⟩
 
 /-- … and since `States.Runtime` is unrecoverable, a missing `Next` fails the scope whatever the
@@ -275,12 +279,13 @@ theorem refused_transition_retried_on_raw_input (env : Env) (fuel : Nat) (states
     (hE : isTrue (fld state "End") = false) (hN : fldStr state "Next" = some next)
     (hL : (render out).length > env.maxData)
     (h : decideError ((listOf (fld state "Retry")).map retrierOf) ((listOf (fld state "Catch")).map catcherOf)
-      (S "States.DataLimitExceeded") retries = .retry d k) :
+      (S "States.DataLimitExceeded") retries = .retry d k)
+    (hD : env.retryCut (st.retryAfter name d).clock = none) :
     leave env (fuel + 2) states name state raw out ctx retries st =
       runFrom env fuel states name raw ctx k (st.retryAfter name d) ∧
       k = retries + 1 := by
   rw [refused_transition_handled_on_raw_input env (fuel + 1) states name next state raw out ctx retries st hE hN hL]
-  exact ⟨retry_reruns_same_input env fuel states name state raw ctx retries _ _ st d k h,
+  exact ⟨retry_reruns_same_input env fuel states name state raw ctx retries _ _ st d k h hD,
     (rerun_count_bounded _ _ _ _ _ _ h).1⟩
 
 /-- a state whose oversize output is refused and is caught: the successor is the catcher's `Next`,
@@ -326,11 +331,12 @@ theorem fanout_refused_transition_keeps_retry_count (env : Env) (fuel : Nat) (st
     (hE : isTrue (fld state "End") = false) (hN : fldStr state "Next" = some next)
     (hL : (render out).length > env.maxData)
     (h : decideError ((listOf (fld state "Retry")).map retrierOf) ((listOf (fld state "Catch")).map catcherOf)
-      (S "States.DataLimitExceeded") retries = .retry d k) :
+      (S "States.DataLimitExceeded") retries = .retry d k)
+    (hD : env.retryCut (st.retryAfter name d).clock = none) :
     joinAndLeave env (fuel + 3) states name state data ctx retries (.ok results) st =
       runFrom env fuel states name data ctx (retries + 1) (st.retryAfter name d) := by
   have h2 := refused_transition_retried_on_raw_input env fuel states name next state data out ctx retries st d k
-    hE hN hL h
+    hE hN hL h hD
   rw [← h2.2, ← h2.1]
   simp [joinAndLeave, hs, hm]
 
@@ -341,7 +347,9 @@ theorem task_refused_transition_retried_on_raw_input (env : Env) (fuel : Nat) (s
     (hr : rpcFunction ((fldStr state "Resource").getD []) = some fn)
     (hi : applyPath data ctx (pathArg state "InputPath") = .ok input)
     (hp : tmplOpt env input ctx (fld state "Parameters") = .ok params)
-    (ha : taskArrival (env.delay fn params (bump st.counts (fn, params)).1) (taskDeadline state st.clock) st.clock
+    (own : Option Rat) (hown : taskOwnDeadline state data ctx st.clock = .ok own)
+    (ha : taskArrival (env.delay fn params (bump st.counts (fn, params)).1)
+        ((taskLimit own env.deadline st.clock).map (·.t)) st.clock
       = some (tEnd, false))
     (hv : taskReply env.maxData (env.task fn params (bump st.counts (fn, params)).1) = .ok v)
     (hs : tmplOpt env v ctx (fld state "ResultSelector") = .ok result)
@@ -349,21 +357,23 @@ theorem task_refused_transition_retried_on_raw_input (env : Env) (fuel : Nat) (s
     (hE : isTrue (fld state "End") = false) (hN : fldStr state "Next" = some next)
     (hL : (render out).length > env.maxData)
     (hd : decideError ((listOf (fld state "Retry")).map retrierOf) ((listOf (fld state "Catch")).map catcherOf)
-      (S "States.DataLimitExceeded") retries = .retry d k) :
+      (S "States.DataLimitExceeded") retries = .retry d k)
+    (hD : env.retryCut (((st.closeKeep.request false).taskCall (bump st.counts (fn, params)).2 ((fldStr state "Resource").getD []) params
+          (replyEv env.maxData (env.task fn params (bump st.counts (fn, params)).1)) tEnd).retryAfter name d).clock = none) :
     runState env (fuel + 3) states name state data ctx retries st =
       runFrom env fuel states name data ctx (retries + 1)
         (((st.closeKeep.request false).taskCall (bump st.counts (fn, params)).2 ((fldStr state "Resource").getD []) params
           (replyEv env.maxData (env.task fn params (bump st.counts (fn, params)).1)) tEnd).retryAfter name d) := by
   have h2 := refused_transition_retried_on_raw_input env fuel states name next state data out ctx retries
     ((st.closeKeep.request false).taskCall (bump st.counts (fn, params)).2 ((fldStr state "Resource").getD []) params
-          (replyEv env.maxData (env.task fn params (bump st.counts (fn, params)).1)) tEnd) d k hE hN hL hd
+          (replyEv env.maxData (env.task fn params (bump st.counts (fn, params)).1)) tEnd) d k hE hN hL hd hD
   rw [← h2.2, ← h2.1]
   have h1 : (S "Task" = S "Pass") = False := by decide
   have h2 : (S "Task" = S "Succeed") = False := by decide
   have h3 : (S "Task" = S "Fail") = False := by decide
   have h4 : (S "Task" = S "Wait") = False := by decide
   have h5 : (S "Task" = S "Choice") = False := by decide
-  simp [runState, h, h1, h2, h3, h4, h5, hr, hi, hp, ha, taskOutcome, taskEv, hv, hs, hm]
+  simp [runState, h, h1, h2, h3, h4, h5, hr, hi, hp, hown, ha, taskOutcome, taskEv, hv, hs, hm]
 
 /-! ### non-vacuity -/
 private def r1 : Retrier := { errorEquals := [S "A"], interval := 2, maxAttempts := 2, backoff := 3/2 }
@@ -417,7 +427,7 @@ example (fuel : Nat) (states ctx : Json) (st : St) :
       runFrom envS fuel states (S "T") rawIn ctx 1 (st.retryAfter (S "T") d) := by
   obtain ⟨d, hd⟩ := hRetry0
   exact ⟨d, (refused_transition_retried_on_raw_input envS fuel states (S "T") (S "N") tState rawIn bigOut ctx 0 st d 1
-    hEnd hNext hBig hd).1⟩
+    hEnd hNext hBig hd (Env.retryCut_no_deadline _ _ rfl)).1⟩
 /-- … and refused again at retry count 1: caught, `C` is entered with exactly `rawIn` -/
 example (fuel : Nat) (states ctx : Json) (st : St) :
     leave envS (fuel + 2) states (S "T") tState rawIn bigOut ctx 1 st =
@@ -433,8 +443,8 @@ example (fuel : Nat) (states : Json) :
           (.lambdaSucceeded reply) 10).retryAfter (S "T") d) := by
   obtain ⟨d, hd⟩ := hRetry0
   exact ⟨d, task_refused_transition_retried_on_raw_input envS fuel states (S "T") (S "f") (S "N") tState rawIn (.obj [])
-    rawIn rawIn reply reply bigOut 0 {} d 1 10 (by rfl) (by rfl) (by rfl) (by rfl) (by decide +kernel) (by rfl) (by rfl) (by rfl)
-    hEnd hNext hBig hd⟩
+    rawIn rawIn reply reply bigOut 0 {} d 1 10 (by rfl) (by rfl) (by rfl) (by rfl) none (by rfl) (by decide +kernel) (by rfl) (by rfl) (by rfl)
+    hEnd hNext hBig hd (Env.retryCut_no_deadline _ _ rfl)⟩
 /-- a fan-out state with the same Retry, entered with retry count 0 (hypotheses of
 `fanout_refused_transition_keeps_retry_count`; `tState`'s Type plays no part in the join) -/
 example (fuel : Nat) (states : Json) (st : St) :
@@ -443,7 +453,7 @@ example (fuel : Nat) (states : Json) (st : St) :
   obtain ⟨d, hd⟩ := hRetry0
   have hb : (render (.obj [(S "a", .num 1), (S "r", .arr [reply])])).length > envS.maxData := by decide
   exact ⟨d, fanout_refused_transition_keeps_retry_count envS fuel states (S "T") (S "N") tState rawIn (.obj [])
-    (.arr [reply]) _ [reply] 0 st d 1 (by rfl) (by rfl) hEnd hNext hb hd⟩
+    (.arr [reply]) _ [reply] 0 st d 1 (by rfl) (by rfl) hEnd hNext hb hd (Env.retryCut_no_deadline _ _ rfl)⟩
 /-- the whole run: T is entered on `rawIn`, its output is refused, it is re-run once on `rawIn`, refused
 again, caught, and `C` is entered with exactly `rawIn` — which is the execution's output -/
 example : (run envS 20 aslT rawIn (.obj [])).status = S "SUCCEEDED" ∧
@@ -459,7 +469,7 @@ example (fuel : Nat) (states ctx : Json) (st : St) :
     ∃ d, leave envS (fuel + 2) states (S "T") tEnd rawIn bigOut ctx 0 st =
       runFrom envS fuel states (S "T") rawIn ctx 1 (st.retryAfter (S "T") d) :=
   ⟨_, (terminal_output_over_limit_retried_on_raw_input envS fuel states (S "T") tEnd rawIn bigOut ctx 0 st _ 1
-    (by rfl) hBig rfl).1⟩
+    (by rfl) hBig rfl (Env.retryCut_no_deadline _ _ rfl)).1⟩
 /-- the whole run of the one-state machine: two attempts, then FAILED with States.DataLimitExceeded -/
 example : (run envS 20 (.obj [(S "StartAt", .str (S "T")), (S "States", .obj [(S "T", tEnd)])]) rawIn (.obj [])).status
       = S "FAILED" ∧
